@@ -24,6 +24,7 @@ type SynOpts struct {
 	RRTwin     bool     // add a nonterminal with the same body as an existing alternative (reduce/reduce conflict), declared at a random place
 	SplitMore  bool     // split definitions more often
 	Large      bool     // several family trees under one start symbol: dozens of states and productions
+	Chains     bool     // one grammar in three starts with the chain family (FIRST sets that settle slowly)
 }
 
 var ntNames = []string{"A", "B", "C", "D", "E", "F", "G", "H", "I", "J", "K", "L", "M", "N", "O", "P"}
@@ -36,6 +37,7 @@ type synB struct {
 	prods []gr.Prod
 	nNT   int
 	maxNT int
+	force int // family the next call of family() must build (0: free choice)
 }
 
 func (b *synB) term() gr.Sym { return rapid.SampledFrom(b.terms).Draw(b.t, "term") }
@@ -59,7 +61,77 @@ func (b *synB) family(depth int) gr.Sym {
 	elem := func() gr.Sym { return b.family(depth - 1) }
 	var alts []gr.Alt_
 	body := func(s ...gr.Sym) gr.Alt_ { return gr.Alt_{Syms: s} }
-	switch rapid.IntRange(0, 13).Draw(b.t, "family") {
+	fam := b.force
+	b.force = 0
+	if fam == 0 {
+		fam = rapid.IntRange(0, 14).Draw(b.t, "family")
+	}
+	switch fam {
+	case 14: // a chain of nonterminals declared top-down, some levels of which also
+		// start with a terminal directly: FIRST sets that take several rounds to
+		// settle and grow by sets that are partly known already; the chain follows
+		// a nonterminal, so that its FIRST set is needed as look-ahead
+		var p gr.Sym
+		if b.maxNT-b.nNT >= 3 {
+			pn, ppi := b.newNT()
+			b.prods[ppi].Alts = []gr.Alt_{body(b.term()), body(b.term(), b.term())}
+			dedupeAlts(&b.prods[ppi])
+			p = nt(pn)
+		} else {
+			p = elem()
+		}
+		n := rapid.IntRange(2, 5).Draw(b.t, "chainLen")
+		leaves := []gr.Sym{b.term()}
+		for k := rapid.IntRange(0, 2).Draw(b.t, "chainLeaves"); k > 0; k-- {
+			leaves = append(leaves, b.term())
+		}
+		var top gr.Sym
+		prev := -1
+		for i := 0; i < n && b.nNT < b.maxNT; i++ {
+			cn, cpi := b.newNT()
+			if prev < 0 {
+				top = nt(cn)
+			} else {
+				a := body(nt(cn))
+				if rapid.Bool().Draw(b.t, "chainTail") {
+					a.Syms = append(a.Syms, b.term())
+				}
+				b.prods[prev].Alts = append(b.prods[prev].Alts, a)
+				if rapid.Bool().Draw(b.t, "chainDirect") {
+					// the level also starts with a terminal directly: one of the
+					// leaves (it then reaches this level twice, the second time in
+					// company) or any other
+					d1 := b.term()
+					if rapid.Bool().Draw(b.t, "chainDirectLeaf") {
+						d1 = rapid.SampledFrom(leaves).Draw(b.t, "chainDirectWhich")
+					}
+					d := body(d1, b.term())
+					if rapid.Bool().Draw(b.t, "chainDirectFirst") {
+						b.prods[prev].Alts = []gr.Alt_{d, a}
+					} else {
+						b.prods[prev].Alts = append(b.prods[prev].Alts, d)
+					}
+				}
+			}
+			prev = cpi
+		}
+		if prev < 0 {
+			top = b.term()
+		} else {
+			for _, l := range leaves {
+				b.prods[prev].Alts = append(b.prods[prev].Alts, body(l))
+			}
+			dedupeAlts(&b.prods[prev])
+		}
+		var syms []gr.Sym
+		if rapid.Bool().Draw(b.t, "chainLedByTerm") {
+			syms = append(syms, b.term())
+		}
+		syms = append(syms, p, top)
+		if rapid.Bool().Draw(b.t, "chainThenTerm") {
+			syms = append(syms, b.term())
+		}
+		alts = []gr.Alt_{body(syms...)}
 	case 13: // a phrase, and next to it an inlined copy of its beginning that goes
 		// on differently: states whose kernels contain one another
 		x := elem()
@@ -272,6 +344,9 @@ func SynGrammar(o SynOpts) *rapid.Generator[*gr.Grammar] {
 		case -1:
 		case 1, 3:
 			// the first production must be a nonterminal: force one
+			if o.Chains && rapid.IntRange(0, 2).Draw(t, "chains") == 0 {
+				b.force = 14
+			}
 			b.family(3)
 		default:
 			b.random(rapid.IntRange(1, o.MaxNT).Draw(t, "nNT"))
